@@ -444,7 +444,7 @@ Qed.
 
 Lemma NE_firstn : forall l n, NE l -> NE (firstn n l).
 Proof.
-  unfold NE; intros l n H. rewrite Forall_forall in *. intros x Hx. apply H. eapply In_firstn_In; eauto. (* stdlib name check *)
+  unfold NE; induction l; destruct n; cbn; intro H; auto. inversion H; subst. constructor; auto.
 Qed.
 
 Lemma add_slot_al_ext : forall s a k, NE (st_alslots s) -> ext s (add_slot_al s a k).
